@@ -110,6 +110,26 @@ def is_channel(mm):
         return True
 
 
+def is_channel_and_config(mm):
+    """Check for channel measurement, return emodulus config identifier
+
+    The scenario (A, B, or C) used in :func:`compute_emodulus` depends on
+    configuration keys that are not part of `req_config` of the ancillary
+    feature instance that was selected by priority (e.g. the instance
+    for case C also computes case B if the medium is "other" and a
+    viscosity is given). Return a string with all those keys, so they
+    are taken into account when identifying cached data.
+    """
+    if not is_channel(mm):
+        return False
+    calccfg = mm.config["calculation"]
+    keys = ["emodulus medium",
+            "emodulus temperature",
+            "emodulus viscosity",
+            "emodulus viscosity model"]
+    return "channel;" + ";".join([f"{k}={calccfg.get(k)}" for k in keys])
+
+
 def register():
     # Please note that registering these things is a delicate business,
     # because the priority has to be chosen carefully.
@@ -131,7 +151,7 @@ def register():
                                      ["imaging", ["pixel size"]],
                                      ["setup", ["flow rate", "channel width"]]
                                      ],
-                         req_func=is_channel,
+                         req_func=is_channel_and_config,
                          priority=4 + pr)
         AncillaryFeature(feature_name="emodulus",
                          data="case A",
@@ -143,7 +163,7 @@ def register():
                                      ["imaging", ["pixel size"]],
                                      ["setup", ["flow rate", "channel width"]]
                                      ],
-                         req_func=is_channel,
+                         req_func=is_channel_and_config,
                          priority=0 + pr)
 
     AncillaryFeature(feature_name="emodulus",
@@ -156,5 +176,5 @@ def register():
                                  ["imaging", ["pixel size"]],
                                  ["setup", ["flow rate", "channel width"]]
                                  ],
-                     req_func=is_channel,
+                     req_func=is_channel_and_config,
                      priority=2)
